@@ -104,7 +104,6 @@ add("C15", "C15/R5/pynenc.client_data_store.base_client_data_store.BaseClientDat
     "the pass-through is relied upon for already-externalised values; needs a distinguishing envelope")
 # ------------------------------------------------------------------ C16
 add("C16", "C16/R2/BaseStateBackend.get_app_info::raises::mem=ValueError::sqlite=KeyError", "missing app info: ValueError (mem) vs KeyError (sqlite)", "input: get_app_info() after purge / before store_app_info", "findings/repro/r8_sibling.py, r11_siblings2.py", "which class is the contract is undocumented in the base class")
-add("C16", "C16/R4/purge-coverage::MemStateBackend::_app_info_registry", "MemStateBackend.purge keeps the class-level app-info registry; SQLite purge empties the app_info table", "history: purge(); get_app_info(): returns (mem) vs KeyError (sqlite)", "findings/repro/r11_siblings2.py", "the registry is deliberately process-global for discovery")
 add("C16", "C16/R5/increment-retries-unknown-id::mem=creates-entry::sqlite=no-op", "increment_invocation_retries(<unknown id>) creates a counter in memory, is a no-op in SQLite", "input: increment then get_invocation_retries(unknown): 1 vs 0", "findings/repro/r11_siblings2.py", "trivial, but which behaviour is intended is undocumented")
 # ------------------------------------------------------------------ C17
 add("C17", "C17/R3/prefix-delete::prefix-not-forgeable",
@@ -132,6 +131,8 @@ fixed = [
     ("C18", "f31d3bd", "WorkflowContext.deterministic cached the executor of the first invocation on the per-process Task (C18/R1)"),
     ("C03", "06e9472", "get_additional_invocations_to_run dropped every popped message whose id was listed in blocking_invocation_ids, also after that invocation had been handed back within the same poll (thread start failure -> rerouted): REROUTED, not queued, lost (C03/R3 exit::get_additional_invocations_to_run::Q-::return, found after the engine required listed ids to be HELD; findings/repro/r16_start_failure_drops_rerouted.py)"),
     ("C16", "d96871a", "MemBlockingControl.get_blocking_invocations(0) returned every ready invocation (the == 0 test came after the decrement), SQLiteBlockingControl none (LIMIT 0): a runner without a free slot claimed blocking invocations on the in-memory backend only (C16/R3 blocking-limit::zero-means-none-on-both-backends; observed by a seeding agent, findings/repro/r17_blocking_limit_zero.py)"),
+    ("C14", "93ae93f", "persistent_process_main's SIGTERM handler set the stop event the parent shares between all workers: one terminated worker stopped its siblings, and every replacement started with the event already set and exited at once (C14/R4 sets-only-this-workers-event; noted by a seeding agent, reproduced with real processes in findings/repro/r18_sigterm_stops_all_workers.py)"),
+    ("C16", "4fb5a9d", "MemStateBackend.purge kept this app's entry in the class-level app-info registry while the SQLite purge empties the app_info table (C16/R4 purge-coverage::MemStateBackend::_app_info_registry; formerly a known finding - the repair removes only the own app's entry, cf. seed C17-2)"),
     ("C12", "02fb446", "calculate_time_slot computed a window's end as start + slot - margin: with margin 0 the rounded end could exceed the next window's rounded start by one ulp, two runners authorised at one instant, e.g. N=7, 6 min (C12/R6; findings/repro/r15_slot_rounding.py)"),
 ]
 out = {
